@@ -59,7 +59,7 @@ zeros of the integer part and trailing zeros of the fraction dropped, unit in lo
 (unit-less exactly after the eight length units), a single `0` before the point exactly when `omitLeadingZero`
 is off — for every literal with at most six fraction digits, every unit, every preference record. -/
 theorem number_written_canonical (l : Lit) (h : l.Wf) (p : Prefs) (typ : NumType)
-    (hsp : isBlank p.spacer = true) (h6 : (l.fp.getD []).length ≤ 6) (hov : l.tooLarge = false) :
+    (hsp : isCssBlank p.spacer = true) (h6 : (l.fp.getD []).length ≤ 6) (hov : l.tooLarge = false) :
     roundTrip p typ l.text = .ok (canonLit p.omitLeadingZero l).text :=
   roundTrip_canon h p typ hsp h6 hov
 
@@ -74,7 +74,7 @@ theorem number_accessors (l : Lit) (h : l.Wf) (typ : NumType) (hov : l.tooLarge 
 (`Lit.value`, computed from the parts) and the same unit; the only unit ever dropped is a zero-length unit after
 a zero value. -/
 theorem number_denotes (l : Lit) (h : l.Wf) (p : Prefs) (typ : NumType)
-    (hsp : isBlank p.spacer = true) (h6 : (l.fp.getD []).length ≤ 6) (hov : l.tooLarge = false) :
+    (hsp : isCssBlank p.spacer = true) (h6 : (l.fp.getD []).length ≤ 6) (hov : l.tooLarge = false) :
     ∃ out d, roundTrip p typ l.text = .ok out ∧ denote out = some d ∧ denote l.text = some l.den ∧
       l.den.toRat = l.value ∧ d.toRat = l.value ∧
       (d.unit = l.unit.map lowerAscii ∨
@@ -93,7 +93,7 @@ theorem number_denotes (l : Lit) (h : l.Wf) (p : Prefs) (typ : NumType)
 /-- **T18.2** normalisation is idempotent: the written text, parsed again (as whatever numeric token type),
 is written unchanged. -/
 theorem number_idempotent (l : Lit) (h : l.Wf) (p : Prefs) (typ typ' : NumType)
-    (hsp : isBlank p.spacer = true) (h6 : (l.fp.getD []).length ≤ 6) (hov : l.tooLarge = false) :
+    (hsp : isCssBlank p.spacer = true) (h6 : (l.fp.getD []).length ≤ 6) (hov : l.tooLarge = false) :
     ∃ out, roundTrip p typ l.text = .ok out ∧ roundTrip p typ' out = .ok out := by
   refine ⟨_, roundTrip_canon h p typ hsp h6 hov, ?_⟩
   have hw := Wf.canon h p.omitLeadingZero
@@ -112,7 +112,7 @@ theorem number_sign_kept (l : Lit) (olz : Bool) :
 
 /-- zero rule, spelled out: a zero value is written `0`, followed by its unit unless that is one of the eight
 length units — whatever the sign and however many zeros were written -/
-theorem number_zero (l : Lit) (h : l.Wf) (p : Prefs) (typ : NumType) (hsp : isBlank p.spacer = true)
+theorem number_zero (l : Lit) (h : l.Wf) (p : Prefs) (typ : NumType) (hsp : isCssBlank p.spacer = true)
     (h6 : (l.fp.getD []).length ≤ 6) (hi : E.allZero l.ip = true) (hf : E.allZero (l.fp.getD []) = true)
     (hlen : l.ip.length ≤ Gen.C18.maxStrDigits) :
     roundTrip p typ l.text =
@@ -258,7 +258,7 @@ theorem f64_bridge_partial (l : Lit) (h : l.Wf) (p : Prefs) (typ : NumType)
 /-- consequence: T18.1a holds for what the implementation's float arithmetic computes, not only for the exact layer:
 in the window the binary64 layer writes the canonical literal -/
 theorem number_written_canonical_f64 (l : Lit) (h : l.Wf) (p : Prefs) (typ : NumType)
-    (hsp : isBlank p.spacer = true) (h6 : (l.fp.getD []).length ≤ 6)
+    (hsp : isCssBlank p.spacer = true) (h6 : (l.fp.getD []).length ≤ 6)
     (hwin : natOfDigits l.ip < (if E.allZero (l.fp.getD []) then 2 ^ 51 else 2 ^ 33)) (hov : l.tooLarge = false) :
     roundTripF64 p typ l.text = .ok (canonLit p.omitLeadingZero l).text := by
   rw [f64_bridge_partial l h p typ h6 hwin hov]
@@ -363,7 +363,7 @@ theorem hash_lossless (p : Prefs) (v : List Nat) : hashChannels (hashShort p v) 
 
 /-- the serializer's two passes over a hash colour (`do_css_Value` over `value.value`) write exactly `_hash(v)`:
 together with `hash_lossless` the written hash has the channels of the source hash under every preference record -/
-theorem hash_written (p : Prefs) (hsp : isBlank p.spacer = true) (t : List Nat) :
+theorem hash_written (p : Prefs) (hsp : isCssBlank p.spacer = true) (t : List Nat) :
     fmtColorSimple p .hash (0x23 :: t) = hashShort p (0x23 :: t) :=
   fmtColorSimple_hash p hsp t
 
@@ -428,7 +428,7 @@ nothing else, nothing dropped, nothing reordered, at every nesting depth. The re
 sequence in which a separator stands between two components (the only ones the grammar of `PropertyValue` /
 `CSSFunction` produces; the harness checks this shape on every parsed value).
 
-Hypotheses: the spacer is white space (`isBlank`), and every *leaf* is written as an ordinary word (`Plain`: a
+Hypotheses: the spacer is CSS white space (`isCssBlank`), and every *leaf* is written as an ordinary word (`Plain`: a
 character that is neither white space nor punctuation of `Out.append`, no unescaped blank at the end, no `*` at the
 start) — proved here for strings and URLs, for function texts (so it propagates upwards), checked by the harness on
 the written text of every number, identifier, colour and `calc()` of every generated value. -/
@@ -436,7 +436,7 @@ the written text of every number, identifier, colour and `calc()` of every gener
 /-- **T18.5** for a function (any nesting depth): `CSSFunction.cssText` is the rendering of its structure — the
 name, the arguments in source order, `,` + `listItemSpacer` for a comma, the spacer between adjacent arguments,
 `)` — and it is again an ordinary word, under every preference record with a blank spacer -/
-theorem function_written_structure (ops : NumOps) (p : Prefs) (hsp : isBlank p.spacer = true) (c : Comp) (t : List Nat)
+theorem function_written_structure (ops : NumOps) (p : Prefs) (hsp : isCssBlank p.spacer = true) (c : Comp) (t : List Nat)
     (hl : Comp.LeavesPlain ops p c) (hr : Comp.render ops p c = .ok t) :
     Comp.text ops p c = .ok t ∧ Plain t :=
   Comp.text_of_render ops p hsp c t hl hr
@@ -445,14 +445,14 @@ theorem function_written_structure (ops : NumOps) (p : Prefs) (hsp : isBlank p.s
 order (each written by its own serializer), `,` + `listItemSpacer` where the source has a comma, `/` where it has a
 slash, the spacer (one blank if empty) between adjacent components — for every value with at least one component,
 under every preference record with a blank spacer -/
-theorem value_written_structure (ops : NumOps) (p : Prefs) (hsp : isBlank p.spacer = true) (items : List PVItem)
+theorem value_written_structure (ops : NumOps) (p : Prefs) (hsp : isCssBlank p.spacer = true) (items : List PVItem)
     (r : List Nat) (hl : ∀ i ∈ items, PVItem.LeavesPlain ops p i) (hv : items.any PVItem.isValue = true)
     (hr : pvRender ops p items .first = .ok r) : fmtPV ops p items = .ok r :=
   fmtPV_of_render ops p hsp items r hl hv hr
 
 /-- the hypothesis on the leaves holds for every STRING and URI value, whatever its content: they are written as
 `helper.string` / `helper.uri` of the stored value, which start with `"` / `u` and end with `"` / `)` -/
-theorem string_uri_leaves_plain (ops : NumOps) (p : Prefs) (hsp : isBlank p.spacer = true) (v : List Nat) :
+theorem string_uri_leaves_plain (ops : NumOps) (p : Prefs) (hsp : isCssBlank p.spacer = true) (v : List Nat) :
     Comp.LeavesPlain ops p (.simple .string v) ∧ Comp.LeavesPlain ops p (.uri v) := by
   constructor
   · intro t h
@@ -465,13 +465,13 @@ theorem string_uri_leaves_plain (ops : NumOps) (p : Prefs) (hsp : isBlank p.spac
 /-- the hypothesis on the leaves holds for every number the number theorems cover: a well-formed literal with at most
 six fraction digits whose unit has no blank is written (exact layer, `number_written_canonical`) as a text with a
 digit, starting with its sign, a digit or the point and ending with a digit or the last character of the unit -/
-theorem number_leaves_plain (l : Lit) (h : l.Wf) (p : Prefs) (typ : NumType) (hsp : isBlank p.spacer = true)
+theorem number_leaves_plain (l : Lit) (h : l.Wf) (p : Prefs) (typ : NumType) (hsp : isCssBlank p.spacer = true)
     (h6 : (l.fp.getD []).length ≤ 6) (hov : l.tooLarge = false) (hu : ∀ c ∈ l.unit, c ≠ 0x20) :
     Comp.LeavesPlain exactOps p (.num typ l.text) :=
   num_leaf_plain h p typ hsp h6 hov hu
 
 /-- … and for every identifier that is an ordinary word itself (it is written unchanged) -/
-theorem ident_leaves_plain (ops : NumOps) (p : Prefs) (hsp : isBlank p.spacer = true) (v : List Nat) (hv : Plain v) :
+theorem ident_leaves_plain (ops : NumOps) (p : Prefs) (hsp : isCssBlank p.spacer = true) (v : List Nat) (hv : Plain v) :
     Comp.LeavesPlain ops p (.simple .ident v) := by
   intro t ht
   simp only [Comp.text, fmtSimple, outValue_outAppend_text p hsp v .ident hv.punct (by decide) false] at ht
@@ -497,11 +497,11 @@ theorem pair_rendering (ops : NumOps) (p : Prefs) (a b : Comp) (ta tb : List Nat
 empty), `sampleValue` = `1.50px/"a" , f(g(0.5,url(x y)) b)`: the hypotheses hold, the rendering is defined, and the
 written text is `1.5px/"a",f(g(.5,url("x y")) b)` -/
 example :
-    isBlank samplePrefs.spacer = true ∧ (∀ i ∈ sampleValue, PVItem.LeavesPlain exactOps samplePrefs i) ∧
+    isCssBlank samplePrefs.spacer = true ∧ (∀ i ∈ sampleValue, PVItem.LeavesPlain exactOps samplePrefs i) ∧
       sampleValue.any PVItem.isValue = true ∧ pvRender exactOps samplePrefs sampleValue .first = .ok sampleText ∧
       fmtPV exactOps samplePrefs sampleValue = .ok sampleText := by
   have hr : pvRender exactOps samplePrefs sampleValue .first = .ok sampleText := by decide +kernel
-  have hb : isBlank samplePrefs.spacer = true := by decide
+  have hb : isCssBlank samplePrefs.spacer = true := by decide
   have hl : ∀ i ∈ sampleValue, PVItem.LeavesPlain exactOps samplePrefs i := by
     have leaf : ∀ (c : Comp) (t0 : List Nat), Comp.text exactOps samplePrefs c = .ok t0 → Plain t0 →
         ∀ t, Comp.text exactOps samplePrefs c = .ok t → Plain t := by
